@@ -2153,3 +2153,17 @@ variant('b-default-subscriber-forgets-subscription', ['C01'], DS,
 variant('t-default-subscriber-truthiness', ['C01'], DS,
         "        if self._on_complete is not None:\n            self._on_complete()",
         "        if self._on_complete:\n            self._on_complete()", kind='twin')
+
+# C20.m a handler per connection
+variant('b-rx-handler-factory-shares-the-adapter', ['C20'], 'rsocket/rx_support/rx_handler_adapter.py',
+        "    def create_handler():\n        return RxHandlerAdapter(handler_factory())",
+        "    adapter = RxHandlerAdapter(handler_factory())\n\n    def create_handler():\n        return adapter",
+        ('C20.m', 'rx_handler_factory'))
+variant('b-reactivex-handler-factory-shares-the-delegate', ['C20'], 'rsocket/reactivex/reactivex_handler_adapter.py',
+        "    def create_handler():\n        return ReactivexHandlerAdapter(handler_factory())",
+        "    delegate = handler_factory()\n\n    def create_handler():\n        return ReactivexHandlerAdapter(delegate)",
+        ('C20.m', 'reactivex_handler_factory'))
+variant('t-reactivex-handler-factory-with-a-local', ['C20'], 'rsocket/reactivex/reactivex_handler_adapter.py',
+        "    def create_handler():\n        return ReactivexHandlerAdapter(handler_factory())",
+        "    def create_handler():\n        delegate = handler_factory()\n        adapter = ReactivexHandlerAdapter(delegate)\n        return adapter",
+        kind='twin')
